@@ -14,6 +14,7 @@ they do not occur in what the model predicts.  `parts` stores the exported certi
 `solve <mode> <list>` re-solves an unsharded function instance with the peeler the real build used
 (`idx` = `peel_by_index` under `lge_shard`, `high` / `low` = the signature peelers of
 `ModelSig.lean`); `solve <list>` is `solve idx <list>`.
+`crafted_empty_shard <n> <empty_shard> <threads>` is answered `unmodelled` (not compared by `check`).
 -/
 namespace Sux.Func
 open Sux.Proto
@@ -171,6 +172,10 @@ def step (r : RSt) (toks : List String) : RSt × String :=
   | "build_take" :: kind :: rest => match doBuild true kind rest with
     | some (st, rep) => (st, rep) | none => bad
   | ["attempts"] => (r, s!"ok {r.attempts}")
+  -- directed search case for defect D31 (128 `Mwhc3Shards` shards, one of them empty by crafted
+  -- keys): the reply is a statistic of the real build judged by the harness's oracle (`wrong=0`);
+  -- the model of `par_solve` is `ModelPar.lean` (theorem `par_solve_complete`), not this runner
+  | ["crafted_empty_shard", _, _, _] => (r, "unmodelled")
   | _ =>
     if !r.built then
       match toks with
